@@ -79,12 +79,17 @@ def run_case(part, case, prange=None):
             return
     total = R ** n
     lo, hi = prange if prange else (0, total)
-    for idx in range(lo, min(hi, total)):
-        labels = []
-        x = idx
-        for _ in range(n):
-            labels.append(x % R)
-            x //= R
+
+    def all_labelings():
+        for idx in range(lo, min(hi, total)):
+            labels = []
+            x = idx
+            for _ in range(n):
+                labels.append(x % R)
+                x //= R
+            yield labels
+
+    for labels in (case["labelings"] if "labelings" in case else all_labelings()):
         exp = oracle(n, edges, labels, R, case["roots"], case["allow_empty"])
         if case["form"] == "literals":
             try:
@@ -97,7 +102,47 @@ def run_case(part, case, prange=None):
             gcheck.judge(part, key, case, labels, exp, s, [])
         else:
             gcheck.judge(part, key, case, labels, exp, s, [gcheck.fix(v, b) for v, b in zip(dvars, labels)])
-    part.add("graphs", (n, tuple(edges), R))
+    if "labelings" in case:
+        part.add("scale", (n, R))
+    else:
+        part.add("graphs", (n, tuple(edges), R))
+
+
+def scale_cases(tier):
+    """Deep regions on larger boards: the serpentine corridor as one region, each leftover strip its own region."""
+    from mc.rules import base as rbase
+
+    out = []
+    big = [(5, 4), (4, 5), (5, 5), (1, 12)] if tier == "quick" else [(5, 4), (4, 5), (5, 5), (6, 5), (7, 4), (1, 20), (20, 1)]
+    for h, w in big:
+        corridor = set(graphref.serpentine(h, w))
+        rest = [c for c in ((y, x) for y in range(h) for x in range(w)) if c not in corridor]
+        comps = sorted((sorted(c) for c in rbase.components(rest)), key=lambda c: c[0])
+        lab = {}
+        for c in corridor:
+            lab[c] = 0
+        for k, comp in enumerate(comps):
+            for c in comp:
+                lab[c] = k + 1
+        R = len(comps) + 1
+        good = [lab[(y, x)] for y in range(h) for x in range(w)]
+        labelings = [good]
+        if len(comps) >= 2:
+            bad = [(1 if v == 2 else v) for v in good]  # two separated strips share a label; label 2 unused
+            labelings.append(bad)
+        order = graphref.serpentine_order(h, w)
+        mid = order[len(order) // 2]
+        cut = list(good)
+        cut[mid[0] * w + mid[1]] = 1 if R > 1 else 0  # the corridor is cut in two
+        labelings.append(cut)
+        if R == 1:
+            labelings = [good]
+        for prim in (False, True):
+            for allow_empty in (False, True):
+                out.append({"form": "grid", "shape": [h, w], "R": R, "roots": None, "allow_empty": allow_empty, "prim": prim, "labelings": labelings})
+        out.append({"form": "array1d", "n": h * w, "edges": graphref.orient(graphref.grid_edges(h, w), 3), "R": R, "roots": [order[0][0] * w + order[0][1]] + [None] * (R - 1),
+                    "allow_empty": False, "prim": False, "labelings": labelings})
+    return out
 
 
 def roots_menu(n, R, full):
@@ -161,11 +206,13 @@ def cases_for(tier):
 
 def prepare(tier):
     global _CASES
-    _CASES = cases_for(tier)
+    _CASES = cases_for(tier) + scale_cases(tier)
     return _CASES
 
 
 def size_of(c):
+    if "labelings" in c:
+        return 60 * len(c["labelings"])
     n = c["n"] if "n" in c else c["shape"][0] * c["shape"][1]
     return c["R"] ** n
 
@@ -187,7 +234,8 @@ def main(tier, seed, only=None):
         "exploration",
         "all labelled simple graphs n<=%d%s, grids with <= %d cells; num_regions 1..%d; ALL labelings in {0..R-1}^n; roots: None, all "
         "lists over {None}+vertices for n<=3,R<=2, otherwise first/last/identity/reversed lists ((y,x) tuples on grids); "
-        "allow_empty_group off/on; auxiliary and native encodings; division as IntArray1D / list / IntArray2D / int literals.  "
+        "allow_empty_group off/on; auxiliary and native encodings; division as IntArray1D / list / IntArray2D / int literals.  Scale family (not exhaustive): on boards up to 5x5 (thorough 6x5, 1x20) the serpentine "
+        "corridor as one region with every leftover strip its own region, plus the variants with two strips sharing a label and with the corridor cut.  "
         "Oracle: each label class connected, every label used unless allow_empty, roots carry their position's label."
         % (4 if tier == "quick" else 5, "" if tier == "quick" else " (n=5: 4-6 edges, plain configuration)", 6 if tier == "quick" else 8, 3 if tier == "quick" else 4),
     )
